@@ -458,8 +458,18 @@ func BuildJoin(query *Query, joinExpr *sqlparser.JoinTableExpr) error {
 	right := CopyQuery(query)
 	err = BuildFrom(right, &joinExpr.RightExpr)
 	if err != nil {
+		left.wg.Wait()
 		return err
 	}
+	// the calls launched by derived tables on either side belong to this query
+	query.postProcessors = append(query.postProcessors, left.postProcessors...)
+	query.postProcessors = append(query.postProcessors, right.postProcessors...)
+	query.wg.Add(1)
+	go func() {
+		left.wg.Wait()
+		right.wg.Wait()
+		query.wg.Done()
+	}()
 	if joinExpr.Condition.On == nil {
 		expr := new(sqlparser.AndExpr)
 		expr.Left = sqlparser.BoolVal(true)
